@@ -405,6 +405,12 @@ def symmetry(rc):
         rc.fail(eq, eq.node, "the conditioning set must take part in equality", construct="eq event3")
 
 
+
+@rule("C18.defuse", "anchored files: every parameter is read, no value is computed and dropped (generic def-use detectors, triaged hit list)", floor=2)
+def defuse(rc):
+    from . import shared as _sh
+    _sh.defuse_rule(rc, _sh.anchor_files("C18"))
+
 MUTANTS = [
     dict(kind="break", name="immorality-without-collider", file=DAGF, expect="C18.collider",
          old="vstructures.add((frozenset(parents), node))", new="vstructures.add(frozenset(parents))"),
